@@ -330,17 +330,46 @@ func runScenario(sc *scenario, tr *hx.Trace, work string, r *hx.Rng) {
 		ch = syncer.NewMemoryChannel(syncer.MemoryConf{InputId: "verif", MaxSize: 1 << 30, LogSize: 4096})
 	}
 	rcfg := config.RedisConfig{Addresses: []string{tgt.Addr()}, Type: config.RedisTypeStandalone, Otype: config.RedisTypeStandalone, Version: "7.0.0"}
-	out := syncer.NewRedisOutput(syncer.RedisOutputConfig{
-		InputName: "verif", CheckpointName: cpName, CanTransaction: sc.txn, Redis: rcfg, EnableResumeFromBreakPoint: true, TargetDb: -1,
-		BatchCmdCount: 3, BatchTicker: 5 * time.Millisecond, BatchBufferSize: 1 << 20, KeepaliveTicker: 50 * time.Millisecond,
-		UpdateCheckpointTicker: 20 * time.Millisecond, ReplayRdbParallel: 1 + r.Intn(2), ReplayRdbEnableRestore: r.Bool(), KeyExists: "replace",
-		Stats: config.OutputStats{DisableLog: true},
-	})
-	in := syncer.NewRedisInput(config.RedisConfig{Addresses: []string{ln.Addr().String()}, Type: config.RedisTypeStandalone, Otype: config.RedisTypeStandalone})
-	in.SetOutput(out)
-	in.SetChannel(ch)
+	restore, par := r.Bool(), 1+r.Intn(2)
+	var runMu sync.Mutex
+	var curIn *syncer.RedisInput
+	var curOut *syncer.RedisOutput
+	stopAll := false
+	restarts := 0
+	newRun := func() {
+		out := syncer.NewRedisOutput(syncer.RedisOutputConfig{
+			InputName: "verif", CheckpointName: cpName, CanTransaction: sc.txn, Redis: rcfg, EnableResumeFromBreakPoint: true, TargetDb: -1,
+			BatchCmdCount: 3, BatchTicker: 5 * time.Millisecond, BatchBufferSize: 1 << 20, KeepaliveTicker: 50 * time.Millisecond,
+			UpdateCheckpointTicker: 20 * time.Millisecond, ReplayRdbParallel: par, ReplayRdbEnableRestore: restore, KeyExists: "replace",
+			Stats: config.OutputStats{DisableLog: true},
+		})
+		in := syncer.NewRedisInput(config.RedisConfig{Addresses: []string{ln.Addr().String()}, Type: config.RedisTypeStandalone, Otype: config.RedisTypeStandalone})
+		in.SetOutput(out)
+		in.SetChannel(ch)
+		curIn, curOut = in, out
+	}
+	newRun()
 	done := make(chan error, 1)
-	go func() { done <- in.Run() }()
+	// the command layer of the tool restarts a syncer whose run ended with an error; so does the harness
+	go func() {
+		for {
+			runMu.Lock()
+			in := curIn
+			runMu.Unlock()
+			err := in.Run()
+			runMu.Lock()
+			if stopAll || err == nil || restarts >= 8 {
+				runMu.Unlock()
+				done <- err
+				return
+			}
+			restarts++
+			curOut.Close()
+			newRun()
+			runMu.Unlock()
+			time.Sleep(50 * time.Millisecond)
+		}
+	}()
 
 	// the master's life: commands, interleaved with the scenario's faults
 	perPhase := sc.ncmds / (len(sc.faults) + 1)
@@ -439,6 +468,10 @@ func runScenario(sc *scenario, tr *hx.Trace, work string, r *hx.Rng) {
 	ok := complete()
 	time.Sleep(60 * time.Millisecond) // let ticker-driven checkpoints and late duplicates land
 	if !ended {
+		runMu.Lock()
+		stopAll = true
+		in := curIn
+		runMu.Unlock()
 		in.Stop()
 		select {
 		case runErr = <-done:
@@ -446,7 +479,9 @@ func runScenario(sc *scenario, tr *hx.Trace, work string, r *hx.Rng) {
 			hx.Fatal("scenario %d: RedisInput.Run did not return after Stop", sc.id)
 		}
 	}
-	out.Close()
+	runMu.Lock()
+	curOut.Close()
+	runMu.Unlock()
 	ch.Close()
 	lists := finalLists()
 	// project: initial element j of key k -> -j, stream element v<i> -> ordinal of command i among the commands of its key
@@ -496,7 +531,7 @@ func runScenario(sc *scenario, tr *hx.Trace, work string, r *hx.Rng) {
 		}
 	}
 	tr.Emit(map[string]interface{}{"ev": "E2E", "id": sc.id, "txn": sc.txn, "disk": sc.disk, "faults": sc.faults, "ncmds": len(src.keyOf),
-		"initial": ninit, "total": total, "lists": proj, "complete": ok, "ended": ended, "err": es, "psync": obs, "base": src.base})
+		"initial": ninit, "total": total, "lists": proj, "complete": ok, "ended": ended, "restarts": restarts, "err": es, "psync": obs, "base": src.base})
 }
 
 func main() {
